@@ -237,7 +237,7 @@ on the thread-local `_context.capture_stack` for the duration of the call and po
 wrapped `__call__` consults the top of the stack.  In this functional evaluator the top of the stack is the
 `capture` field of the `Cfg` in effect: a nested apply evaluates its body under `nestedCfg cfg` (push), and
 the caller goes on under its own `cfg` when it returns (pop). -/
-def nestedCfg (cfg : Cfg) : Cfg := { cfg with capture := false }
+def nestedCfg (cfg : Cfg) : Cfg := { cfg with capture := false, style := .compact }  -- the sub-network is a compact module
 
 /-- what the enclosing body keeps of the state a nested apply returned: how many collections came back, and
 the sum of all their entries (so that an unrequested extra collection is visible in the output) -/
